@@ -601,6 +601,12 @@ func runCase(c string) string {
 	if f[0] == "conc" {
 		return runConc(f)
 	}
+	if f[0] == "sec" {
+		return runSec(f)
+	}
+	if f[0] == "reg" {
+		return runReg(f)
+	}
 	if len(f) != 13 || f[0] != "c18" {
 		return "unknown-case"
 	}
@@ -876,6 +882,7 @@ func gen(r *vh.Rand, tier string) []string {
 	}
 	out = append(out, genKinds(r, tier)...)
 	out = append(out, genConc(r, tier)...)
+	out = append(out, genSecs(r, tier)...)
 	return out
 }
 
